@@ -324,6 +324,7 @@ int extract_trigger_args(char **pargs, char **prets, char *trigger)
 			char *args = NULL;
 			char *rval = NULL;
 			bool auto_args = false;
+			bool has_spec = false;
 
 			act = strchr(name, '@');
 			if (act == NULL)
@@ -340,6 +341,9 @@ int extract_trigger_args(char **pargs, char **prets, char *trigger)
 					auto_args = true;
 			}
 
+			/* update_filter() looks a function up only when the trigger has no spec of its own */
+			has_spec = args || rval;
+
 			if (args) {
 				xasprintf(&act, "%s@%s", name, args);
 				argspec = strjoin(argspec, act, ";");
@@ -353,7 +357,7 @@ int extract_trigger_args(char **pargs, char **prets, char *trigger)
 				free(act);
 				free(rval);
 			}
-			if (auto_args) {
+			if (auto_args && !has_spec) {
 				argspec = strjoin(argspec, name, ";");
 				retspec = strjoin(retspec, name, ";");
 			}
